@@ -1,15 +1,20 @@
 (* C17 - Contact identity keys are pinned.  Statements only; proofs are in C17/C17Proofs.v.
    The model (C17/C17Model.v) is ONE account as an input-enabled machine: `run a ins` feeds it any list of
-   inputs (application sends, key-directory answers, message stanzas, receipts, restarts) carrying arbitrary
-   values, so each theorem covers every history of (contact publishes keys, contact reinstalls with a new
-   identity, message in either direction, restart), any number of contacts/accounts, any server schedule.
-   `no_wipe` only excludes that the observed account itself reinstalls (then its own table is gone by design). *)
+   inputs (application sends, key-directory answers, message stanzas, receipts, identity-change notifications,
+   restarts) carrying arbitrary values, so each theorem covers every history of (contact publishes keys, contact
+   reinstalls with a new identity, message in either direction, server announces an identity change, restart), any
+   number of contacts/accounts, any server schedule.
+   `no_wipe` only excludes that the observed account itself reinstalls (then its own table is gone by design).
+   Durability is explicit: a_ids/a_sess are the tables as the process's sqlite connection sees them, a_dids/a_dsess
+   the COMMITTED tables; IRestart = the process ends (open transaction rolled back) and a new one reads the committed
+   tables.  `durable a` (committed = working) holds in every reachable state (C17_reachable_durable) and is the
+   hypothesis of the theorems stated for an arbitrary state a. *)
 From YV Require Import Common.Tac C17.C17Model C17.C17Proofs.
 Local Open Scope N_scope.
 
 (* auto-trust off: once a key is remembered for c, it is the remembered key after any further history *)
 Theorem C17_pin_immutable : forall a ins c k,
-  a_auto a = false -> no_wipe ins ->
+  a_auto a = false -> durable a -> no_wipe ins ->
   lookup c (a_ids a) = Some k -> lookup c (a_ids (fst (run a ins))) = Some k.
 Proof. exact pin_immutable_thm. Qed.
 Print Assumptions C17_pin_immutable.
@@ -92,19 +97,116 @@ Theorem C17_autotrust_replaces_and_resumes_history :
 Proof. exact resume_history_autotrust. Qed.
 Print Assumptions C17_autotrust_replaces_and_resumes_history.
 
-(* the pin lives in the durable store: restart changes neither table nor the flag, and after
-   any history containing a restart the pin is still there and still enforced *)
-Theorem C17_survives_restart : forall a,
+(* the identity-change `encrypt` notification about contact c: acked, c's keys requested, no table touched *)
+Theorem C17_notify_fetches_keys : forall a c m,
+  snd (step a (INotify c m)) = [ONotifAck c m; OGetKeys (a_iqctr a) c] /\
+  lookup (a_iqctr a) (a_iqs (fst (step a (INotify c m)))) = Some (KNotify c) /\
+  a_ids (fst (step a (INotify c m))) = a_ids a /\ a_sess (fst (step a (INotify c m))) = a_sess a.
+Proof. exact notify_fetches_keys_thm. Qed.
+Print Assumptions C17_notify_fetches_keys.
+
+(* ... on the key answer the bundle is processed and nothing is sent: a trusted (unknown or equal) identity is
+   remembered - also in the COMMITTED table -, the session is built on top of the old record *)
+Theorem C17_notify_bundle_pins : forall a iq res c k sid,
+  lookup iq (a_iqs a) = Some (KNotify c) -> lookup c res = Some (k, sid) -> trusted (a_ids a) c k = true ->
+  let a' := fst (step a (IKeys iq res)) in
+  snd (step a (IKeys iq res)) = [] /\
+  lookup c (a_ids a') = Some k /\ lookup c (a_dids a') = Some k /\
+  record_of a' c = new_state sid k true :: record_of a c /\ durable a'.
+Proof. exact notify_bundle_pins_thm. Qed.
+Print Assumptions C17_notify_bundle_pins.
+
+(* ... and a different identity (auto-trust off) changes nothing at all: no output, every table as before, only
+   the answered request is forgotten *)
+Theorem C17_refused_notify_bundle : forall a iq res c k k' sid,
+  a_auto a = false -> lookup iq (a_iqs a) = Some (KNotify c) ->
+  lookup c (a_ids a) = Some k -> lookup c res = Some (k', sid) -> k' <> k ->
+  step a (IKeys iq res) = (set_iqs a (remove_key iq (a_iqs a)) (a_iqctr a), []).
+Proof. exact refused_notify_bundle_thm. Qed.
+Print Assumptions C17_refused_notify_bundle.
+
+(* the pin lives in the durable store.  Every state reachable by ANY history (any inputs in any order, own reinstalls
+   included; whichever path saved an identity: bundle fetched for a send, for a retry, after an identity-change
+   notification, for a parked message of the no-session receive path whose decryption then fails, first message
+   that then fails to verify, auto-trust) has everything it works with committed ... *)
+Theorem C17_reachable_durable : forall auto ins, durable (fst (run (init auto) ins)).
+Proof. exact reachable_durable_thm. Qed.
+Print Assumptions C17_reachable_durable.
+
+(* ... so after any history a restart changes neither table nor the flag: every identity the account has
+   remembered is still remembered after the restart *)
+Theorem C17_survives_restart : forall auto ins,
+  let a := fst (run (init auto) ins) in
   a_ids (fst (step a IRestart)) = a_ids a /\ a_sess (fst (step a IRestart)) = a_sess a /\
   a_auto (fst (step a IRestart)) = a_auto a.
 Proof. exact survives_restart_thm. Qed.
 Print Assumptions C17_survives_restart.
 
+Theorem C17_remembered_survives_restart : forall auto ins c k,
+  let a := fst (run (init auto) ins) in
+  lookup c (a_ids a) = Some k -> lookup c (a_ids (fst (run (init auto) (ins ++ [IRestart])))) = Some k.
+Proof. exact remembered_survives_restart_thm. Qed.
+Print Assumptions C17_remembered_survives_restart.
+
+(* the same on one state (the statement this file had before durability was made explicit, now with its hypothesis) *)
+Theorem C17_restart_of_durable : forall a, durable a ->
+  a_ids (fst (step a IRestart)) = a_ids a /\ a_sess (fst (step a IRestart)) = a_sess a /\
+  a_auto (fst (step a IRestart)) = a_auto a /\ durable (fst (step a IRestart)).
+Proof. exact restart_of_durable_thm. Qed.
+Print Assumptions C17_restart_of_durable.
+
+(* a key remembered after ins1 (by whichever input of ins1) is, after a restart and any further history ins2, still
+   the remembered key, and still enforced: a first message, a bundle fetched for a send and a bundle fetched after
+   a notification that present another identity are refused *)
 Theorem C17_pin_enforced_after_restart : forall a ins1 ins2 c k,
-  a_auto a = false -> no_wipe ins1 -> no_wipe ins2 ->
+  a_auto a = false -> durable a -> no_wipe ins1 -> no_wipe ins2 ->
   lookup c (a_ids (fst (run a ins1))) = Some k ->
   let a' := fst (run a (ins1 ++ IRestart :: ins2)) in
   lookup c (a_ids a') = Some k /\ a_auto a' = false /\
-  (forall m e, e_kind e = EPk -> e_ident e <> k -> step a' (IMsg c m e) = (a', [])).
+  (forall m e, e_kind e = EPk -> e_ident e <> k -> step a' (IMsg c m e) = (a', [])) /\
+  (forall iq res m k' sid, lookup iq (a_iqs a') = Some (KSend c m) -> lookup c res = Some (k', sid) -> k' <> k ->
+     snd (step a' (IKeys iq res)) = [OErr c]) /\
+  (forall iq res k' sid, lookup iq (a_iqs a') = Some (KNotify c) -> lookup c res = Some (k', sid) -> k' <> k ->
+     step a' (IKeys iq res) = (set_iqs a' (remove_key iq (a_iqs a')) (a_iqctr a'), [])).
 Proof. exact pin_enforced_after_restart_thm. Qed.
 Print Assumptions C17_pin_enforced_after_restart.
+
+(* non-vacuity, computed: notification -> bundle (key 1) -> restart -> reinstall of the contact (key 2): retry bundle
+   refused with the per-jid error, first message ignored, second notification's bundle changes nothing; key 1 stays
+   and the only session state is the one built for key 1 *)
+Theorem C17_notify_restart_history :
+  snd (run (init false) history_notify) =
+  [ [ONotifAck 7 1; OGetKeys 0 7]; []; [];
+    [OMsg 7 2 EPk 50 0 1]; [OGetKeys 1 7]; [OErr 7];
+    [];
+    [ONotifAck 7 4; OGetKeys 2 7]; [] ]
+  /\ lookup 7 (a_ids (fst (run (init false) history_notify))) = Some 1
+  /\ map s_ident (record_of (fst (run (init false) history_notify)) 7) = [1].
+Proof. exact notify_history_no_autotrust. Qed.
+Print Assumptions C17_notify_restart_history.
+
+(* the no-session receive path: parked message, bundle (key 1), the parked message fails to decrypt (retry), restart,
+   first message presenting key 2 ignored *)
+Theorem C17_nosession_restart_history :
+  snd (run (init false) history_nosession) = [ [OGetKeys 0 7]; [ORetry 7 1 1]; []; [] ]
+  /\ lookup 7 (a_ids (fst (run (init false) history_nosession))) = Some 1.
+Proof. exact nosession_history_no_autotrust. Qed.
+Print Assumptions C17_nosession_restart_history.
+
+(* REFUTED for the variant in which saveIdentity does not commit (seeded defect C17-2; processPreKeyBundle stores
+   the session first and saves the identity last): the pin is there inside the process, is lost by a restart while
+   the session survives, and another identity is then taken from a bundle with auto-trust off *)
+Theorem C17_saveIdentity_without_commit_refuted :
+  exists a c k sid,
+    a_auto a = false /\ durable a /\ trusted (a_ids a) c k = true /\
+    let a1 := build_session_nocommit a c k sid in
+    lookup c (a_ids a1) = Some k /\ ~ durable a1 /\
+    lookup c (a_ids (restart a1)) = None /\ session_exists (restart a1) c = true /\
+    exists k' sid', k' <> k /\
+      let a2 := fst (step (restart a1) (INotify c 9)) in
+      lookup c (a_ids (fst (step a2 (IKeys (a_iqctr (restart a1)) [(c, (k', sid'))])))) = Some k' /\
+      let b1 := restart (build_session a c k sid) in
+      let b2 := fst (step b1 (INotify c 9)) in
+      lookup c (a_ids (fst (step b2 (IKeys (a_iqctr b1) [(c, (k', sid'))])))) = Some k.
+Proof. exact saveIdentity_without_commit_refuted. Qed.
+Print Assumptions C17_saveIdentity_without_commit_refuted.
